@@ -5,10 +5,11 @@ V = os.path.dirname(os.path.abspath(__file__))
 props = [json.loads(l) for l in open(os.path.join(V, "properties.jsonl")) if l.strip()]
 NA = json.load(open(os.path.join(V, "not_applicable.json"))) if os.path.exists(os.path.join(V, "not_applicable.json")) else {}
 checks, na = [], []
+READY = set(open(os.path.join(V, "ready.txt")).read().split()) if os.path.exists(os.path.join(V, "ready.txt")) else set()
 for p in props:
     pid = p["id"]
     src = os.path.join(V, "harness", pid + ".cpp")
-    if not os.path.exists(src) or pid in NA:
+    if not os.path.exists(src) or pid in NA or pid not in READY:
         na.append({"property_id": pid, "reason": NA.get(pid, "check not built yet in this round (planned: see DESIGN.md section 5)")})
         continue
     meta = {}
